@@ -120,10 +120,8 @@ func JSONGetNaturalLanguageField(val *fastjson.Value, prop string) NaturalLangua
 			}
 		})
 	case fastjson.TypeString:
-		l := LangRefValue{}
-		if err := l.UnmarshalJSON(v.GetStringBytes()); err == nil {
-			n = append(n, l)
-		}
+		// the parser has already decoded the JSON string: its bytes are the text
+		n = append(n, LangRefValue{Ref: NilLangRef, Value: append(Content(nil), v.GetStringBytes()...)})
 	}
 
 	return n
